@@ -104,6 +104,8 @@ struct InstM
     once_fired: bool,
     real: Option<u64>,
     canary: bool,
+    /// its count reached zero *during* a guaranteed collection (released by an entity that collection despawned)
+    chain_doomed: bool,
     /// ever registered for / revoked from (for attribution)
     revoked_keys: Vec<MTrig>,
     kinds_this_tree: u32,
@@ -283,7 +285,7 @@ impl<'a> Checker<'a>
     {
         let insts = prog.insts.iter().map(|d| InstM {
             origin: d.origin, flavour: d.flavour, known: false, created: false, alive: false, doomed: false, limbo: false, busy: false, runs: 0,
-            once_fired: false, real: None, canary: false, revoked_keys: Vec::new(), kinds_this_tree: 0,
+            once_fired: false, real: None, canary: false, chain_doomed: false, revoked_keys: Vec::new(), kinds_this_tree: 0,
         }).collect();
         Checker {
             prog, trace, pos: 0, floats: Vec::new(), hooks, verdicts: Vec::new(), stats: Stats::default(),
@@ -706,8 +708,10 @@ impl<'a> Checker<'a>
         self.stats.guaranteed_gc += 1;
         self.gc_guaranteed_this_step = true;
         let doomed = std::mem::take(&mut self.doomed_ents);
+        let before: Vec<bool> = self.insts.iter().map(|t| t.doomed).collect();
         for e in doomed { self.despawn_rec(e); }
-        for t in self.insts.iter_mut() { if t.doomed && t.alive && !t.busy { t.alive = false; } }
+        // a collection keeps going until nothing is left to collect: reactors released by what it despawned go too
+        for (i, t) in self.insts.iter_mut().enumerate() { if t.doomed && t.alive && !t.busy { t.alive = false; if !before[i] { t.chain_doomed = true; } } }
     }
 
     //---------------------------------------------------------------------------------------------------------------
@@ -1047,7 +1051,7 @@ impl<'a> Checker<'a>
                     if let Some(c) = pending
                     {
                         let want = self.expected_sample(&c);
-                        fail!(self, "C03", "wrong-event-data", &["C12", "C05"], "instance {inst} ran for {c:?} (or another pending delivery) but its readers show {s:?}; expected e.g. {want:?}");
+                        fail!(self, "C03", "wrong-event-data", &["C12", "C05", "C04"], "instance {inst} ran for {c:?} (or another pending delivery) but its readers show {s:?}; expected e.g. {want:?}");
                     }
                     return self.unexpected_body(inst, s, "a delivery that accounts for this run");
                 };
@@ -1898,6 +1902,7 @@ impl<'a> Checker<'a>
             if !t.alive && *alive
             {
                 if t.once_fired { fail!(self, "C15", "once-entity-leaked", &["C07"], "one-off reactor {i} still exists after it ran (step {step})"); }
+                if t.chain_doomed { fail!(self, "C11", "gc-chain-not-settled", &["C07", "C10"], "ref-counted instance {i} lost its last handle when a garbage collection despawned its trigger entity, but that collection left it alive: its despawn is still pending after step {step}"); }
                 fail!(self, "C07", "reactor-leaked", &["C15"], "instance {i} still exists after step {step}; it should have been despawned");
             }
             if !*alive && !t.canary
